@@ -177,6 +177,12 @@ class BaseFormOperatorDerivative(BaseFormDerivative, BaseFormOperator):
     # Set __repr__
     __repr__ = Operator.__repr__
 
+    # Structural equality as for every other operator: the abstract
+    # BaseFormOperator.__eq__ (which raises) comes first in the MRO
+    def __eq__(self, other):
+        """Check equality."""
+        return Operator.__eq__(self, other)
+
     # All data of this node is in its operands
     _ufl_compute_hash_ = Operator._ufl_compute_hash_
 
